@@ -193,9 +193,10 @@ class GOb(Obligation):
             if undec:
                 p, why = undec[0]
                 # a Misaligned reshape is what a wrong layout looks like: let the native differential decide
-                wit = self._concretize(p, why)
-                if wit is not None and wit.get("native_fails"):
-                    return Verdict(REFUTED, "concretised-misaligned", why, npaths, wit)
+                if why.startswith("Misaligned"):
+                    wit = self._concretize(p, why)
+                    if wit is not None and wit.get("native_fails"):
+                        return Verdict(REFUTED, "concretised-misaligned", why, npaths, wit)
                 return Verdict(UNDECIDED, "engine", why, npaths)
             # ---- engine soundness monitor: symbolic result evaluated at a concrete instance == native run
             # (only a path without data-dependent decisions is comparable with one native run)
@@ -425,8 +426,8 @@ def _sym_equal(got, want, check_dtype=False):
 
 
 # ------------------------------------------------------------------------------------------------ running
-class _Timeout(Exception):
-    pass
+class _Timeout(BaseException):
+    """BaseException so that neither the explorer nor repo code can swallow it"""
 
 
 def _alarm(signum, frame):
